@@ -4,7 +4,7 @@ import vlib
 ASSUME = [
     'peer side (TestVerifC19Status): the measurement model assumes that a peer reads its clock while it serves the request; the real status handler (GET / with Accept: application/json on an in-process node) is asked 22 times back to back and with pauses of 1 ms .. 1.1 s, and CurrentTime must lie between the start and the end of its own request (wall-clock readings of one process)',
     'a measurement is (local Start=T, peer reads its clock T+d1+delta when answering, local End=T+d1+d2); delays are non-negative and the clocks do not step during one measurement',
-    'grid bounds: delta in [-4s,+4s] (step 50ms quick / 10ms thorough) plus 0, +-1ns, +-2s, +-2s+-1ns; d1,d2 in {0,1ns,1ms,100ms,999ms,1s,1999ms,2s,3s}; 0..3 peers; '
+    'grid bounds: delta in [-4s,+4s] plus +-10s, 1min, 1h, 24h-1s, 24h, 24h+1s, 25h, 72h, 1 year, 45 years; (step 50ms quick / 10ms thorough) plus 0, +-1ns, +-2s, +-2s+-1ns; d1,d2 in {0,1ns,1ms,100ms,999ms,1s,1999ms,2s,3s}; 0..3 peers; '
     'one peer: full grid; two peers: all ordered pairs over the full delay grid x a reduced offset set of 25 values (thorough: the 50ms offset grid); three peers: all ordered triples of a smaller sub-grid (11 offsets quick / 25 thorough x 4 delays each way)',
     'a peer that did not answer is the zero timeResult that collectTime leaves in its slot; the grid tier does not execute the HTTP collection (getServerTime/collectTime), the collection tier does (loopback HTTPS peers)',
     'a peer is "named" by an error when the String() of its measurement occurs in the error text (peers are given distinct local start times so the strings are distinct)',
